@@ -78,7 +78,8 @@ class Hosts(BaseHosts[ASGIApp]):
         host = ""
         for k, v in scope["headers"]:
             if k == b"host":
-                host = v.decode("latin-1")
+                value = v.decode("latin-1")
+                host = f"{host}, {value}" if host else value
         endpoint = self.search(host)
         if endpoint is None:
             response: ASGIApp = PlainTextResponse(b"Invalid host", 404)
